@@ -115,6 +115,13 @@ for np = 0, 3 do
   end
 end
 return #out, out[1]`, "0|nil", nil},
+	{"C04", "events-are-looked-up-raw-in-the-metatable", `local log = {} local Base = {__tostring = function() return "BASE" end, __call = function() return "called" end, __unm = function() return "neg" end, __index = function() return "idx" end, __newindex = function() log[#log + 1] = "ni" end, __eq = function() return true end, __lt = function() return true end, __le = function() return true end, __concat = function() return "cat" end, __add = function() return "add" end, __len = function() return 99 end}
+local Derived = setmetatable({}, {__index = Base})
+local a, b = setmetatable({}, Derived), setmetatable({}, Derived)
+a.stored = 1
+return tostring(a):sub(1, 6), pcall(function() return a() end), pcall(function() return -a end), a.missing, rawget(a, "stored"), #log, a == b, pcall(function() return a < b end), pcall(function() return a <= b end), pcall(function() return a .. "x" end), pcall(function() return a + 1 end), #a`, "table:|false|false|nil|1|0|false|false|false|false|false|0", nil},
+	{"C14", "backtracking-is-bounded-by-depth-not-by-work", `local s = ("a"):rep(90) local t = ("a"):rep(40) return s:find("^a-a-a-a-b"), t:find("^a*a*a*a*a*b"), (s .. "b"):find("^a-a-a-a-b"), select("#", s:find("^a-a-a-a-b"))`, "nil|nil|1|1", nil},
+	{"C01", "function-statements-behind-600-constants", `local parts = {"local cp = {"} for i = 1, 600 do parts[#parts + 1] = (i + 0.5) .. "," end parts[#parts + 1] = "} local obj = {n = 'obj'} function obj:name(x) return self == obj, x end function obj.plain(x) return x end local s = ('abc'):upper() local r1, r2 = obj:name(7) return r1, r2, obj.plain(8), s, obj.n, ('x'):rep(2), #cp" return loadstring(table.concat(parts))()`, "true|7|8|ABC|obj|xx|600", nil},
 	// eighth batch
 	{"C19", "read-format-must-be-a-number-or-a-string", `local f = io.open("$F") local a, b, c = pcall(f.read, f, true), pcall(f.read, f, nil), pcall(f.read, f, {}) local d = f:read(2, "*l") f:close() return a, b, c, d`, "false|false|false|01", nil},
 	{"C19", "io.lines-on-a-closed-default-input-raises-at-once", `io.input("$F") io.close(io.input()) local closed = pcall(io.lines) io.input("$F") local open = pcall(io.lines) return closed, open`, "false|true", nil},
@@ -507,6 +514,21 @@ func pinnedGoAPI5(r *harness.Run, prop string) {
 			st, err, _ := L.Resume(co, nil)
 			if st != lua.ResumeError || err == nil {
 				return fmt.Sprintf("Resume(newthread, nil): %v %v, expected an error result", st, err)
+			}
+			return ""
+		})
+		check("goapi/host-function-yields-more-values-than-it-got-in-tail-position", func(L *lua.LState) string {
+			L.SetGlobal("hostyield", L.NewFunction(func(L *lua.LState) int {
+				return L.Yield(lua.LString("y1"), lua.LString("y2"), lua.LString("y3"), L.Get(1))
+			}))
+			if err := L.DoString(`co = coroutine.create(function(a) return hostyield(a) end) co2 = coroutine.wrap(function(a) local r = hostyield(a) return "ret", r end) function three(...) return select("#", ...), ... end`); err != nil {
+				return err.Error()
+			}
+			if err := L.DoString(`local n, ok, a, b, c, d = three(coroutine.resume(co, "arg")) assert(n == 5 and ok and a == "y1" and b == "y2" and c == "y3" and d == "arg", "tail position: " .. tostring(n) .. " " .. tostring(a) .. " " .. tostring(d))
+				local n2, a2, b2, c2, d2 = three(co2("arg2")) assert(n2 == 4 and a2 == "y1" and c2 == "y3" and d2 == "arg2", "call position: " .. tostring(n2))
+				local ok3, r3 = coroutine.resume(co, "back") assert(ok3 and r3 == "back" and coroutine.status(co) == "dead", "after the yield: " .. tostring(r3))
+				local g = {} for x, y, z in coroutine.wrap(function() return hostyield("it") end) do g[#g + 1] = x .. y .. z break end assert(g[1] == "y1y2y3")`); err != nil {
+				return firstLine(err.Error())
 			}
 			return ""
 		})
